@@ -1598,7 +1598,9 @@ func (l *LanguageServer) handleTextDocumentCodeAction(params types.CodeActionPar
 			})
 		}
 
-		if l.clientIdentifier == clients.IdentifierVSCode {
+		// codeDescription is optional in the protocol: diagnostics that do
+		// not carry one have no docs link to show
+		if l.clientIdentifier == clients.IdentifierVSCode && diag.CodeDescription != nil {
 			// always show the docs link
 			txt := "Show documentation for " + diag.Code
 			actions = append(actions, types.CodeAction{
